@@ -19,6 +19,7 @@ Only property theorems, non-vacuity examples and the axiom audit live here.
 -/
 import PcProofs.Close3Lmo
 import PcProofs.Close3LmoTotal
+import PcProofs.Close3LmoAt
 import PcProofs.TopLmoExamples
 import PcProps.C01Closed3
 
@@ -112,6 +113,48 @@ theorem pi_lmo_parallel_eq_pi_world_hpi (W : World2) {B : ℕ} (h : W.OKmin B) (
     (hr : piLmoParallel (W.lmoCtx c f pi true) (x : ℤ) v run sched team print es = .ok r) : r = (π x : ℤ) :=
   W.pi_lmo_parallel_world_hpi h c f pi a hx2 hx ha1 ha hvN hcv hvu hyB hpi hrun hsched hr
 
+/-! ### over WP close's world (`W.OK B`: `phi_vector`'s inner cache right up to `π(B)` only) — needs the transfer lemma `piLmo5_focus`:
+`CtxOKTo.tabs : ∀ y, …` is not dischargeable there for `y > B`, the functions read the tables of ONE `y` (PcProofs/Close3LmoAt.lean) -/
+
+/-- the table contracts at the `y` that is used suffice (generic context) -/
+theorem piLmo5_eq_pi_at {σ : Type} {C : Ctx σ} {x N : ℕ} (a : ℚ) {v : ℤ} {run : P2L.Run} {sched : List (List ℕ)}
+    (hx2 : 2 ≤ x) (hx : x < 2 ^ 63)
+    (ha1 : 1 ≤ a) (ha : a ≤ (irootN 6 x : ℚ)) (hvN : TruncNear ((irootN 3 x : ℚ) * a) v) (hcv : (irootN 3 x : ℤ) ≤ v)
+    (hvu : v ≤ ((irootN 3 x * irootN 6 x : ℕ) : ℤ))
+    (hC : CtxOKAt C x N v.toNat) (hN : 2 ^ 64 - 2 ^ 32 ≤ N)
+    (hS : ∀ K, K ≤ π v.toNat → ∃ H : SieveSpec C.S K, ∀ seg, 240 ∣ seg → 0 < seg → H.segOK 0 seg)
+    (hrun : 4 ≤ x → v.toNat < Nat.sqrt x → run.valid C.lc x (x / max v.toNat 1) = true)
+    (hsched : IsSchedule (getCI v + 1) (π v.toNat) sched) :
+    piLmo5 C (x : ℤ) v run sched = .ok (π x : ℤ) :=
+  piLmo5_eq_at a hx2 hx ha1 ha hvN hcv hvu hC hN hS hrun hsched
+
+/-- `pi_lmo5(x) = π(x)` over WP close's world -/
+theorem pi_lmo5_eq_pi_world1 (W : World) {B : ℕ} (h : W.OK B) (c : Sieve.Cfg) (f : Sieve.StopFn) (pi : ℕ → ℕ) {x : ℕ} (a : ℚ) {v : ℤ}
+    {run : P2L.Run} {sched : List (List ℕ)}
+    (hx2 : 2 ≤ x) (hx : x < 2 ^ 63)
+    (ha1 : 1 ≤ a) (ha : a ≤ (irootN 6 x : ℚ)) (hvN : TruncNear ((irootN 3 x : ℚ) * a) v) (hcv : (irootN 3 x : ℤ) ≤ v)
+    (hvu : v ≤ ((irootN 3 x * irootN 6 x : ℕ) : ℤ))
+    (hyB : v.toNat ≤ B)
+    (hpi : ∀ n, n < x → pi n = π n)
+    (hrun : 4 ≤ x → v.toNat < Nat.sqrt x → run.valid genConsts x (x / max v.toNat 1) = true)
+    (hsched : IsSchedule (getCI v + 1) (π v.toNat) sched) :
+    piLmo5 (W.lmoCtx c f pi false) (x : ℤ) v run sched = .ok (π x : ℤ) :=
+  W.pi_lmo5_w h c f pi a hx2 hx ha1 ha hvN hcv hvu hyB hpi hrun hsched
+
+/-- `pi_lmo_parallel` over WP close's world on any history: `π(x)` or `badRun` -/
+theorem pi_lmo_parallel_world1_total (W : World) {B : ℕ} (h : W.OK B) (c : Sieve.Cfg) (f : Sieve.StopFn) (pi : ℕ → ℕ) {x : ℕ} (a : ℚ)
+    {v : ℤ} {run : P2L.Run} {sched : List (List ℕ)} (team : ℕ) (print : Bool) (es : List S2.Ev)
+    (hx2 : 2 ≤ x) (hx : x < 2 ^ 63)
+    (ha1 : 1 ≤ a) (ha : a ≤ (irootN 6 x : ℚ)) (hvN : TruncNear ((irootN 3 x : ℚ) * a) v) (hcv : (irootN 3 x : ℤ) ≤ v)
+    (hvu : v ≤ ((irootN 3 x * irootN 6 x : ℕ) : ℤ))
+    (hyB : v.toNat ≤ B)
+    (hpi : ∀ n, n < x → pi n = π n)
+    (hrun : 4 ≤ x → v.toNat < Nat.sqrt x → run.valid genConsts x (x / max v.toNat 1) = true)
+    (hsched : IsSchedule (getCI v + 1) (π v.toNat) sched) :
+    piLmoParallel (W.lmoCtx c f pi true) (x : ℤ) v run sched team print es = .ok (π x : ℤ) ∨
+      piLmoParallel (W.lmoCtx c f pi true) (x : ℤ) v run sched team print es = .error (.s2 .badRun) :=
+  W.pi_lmo_parallel_total_w h c f pi a team print es hx2 hx ha1 ha hvN hcv hvu hyB hpi hrun hsched
+
 /-! ### non-vacuity (tests, labelled as such): `exWorld3` (sieving core below 2^50, `phiNeg = phiNegIdeal`, `N = 3000`, `B = 100`) -/
 
 /-- the tables the LMO files build for `y = 100` over the example world meet `LmoOK` (both variants) -/
@@ -149,6 +192,21 @@ example (c : Sieve.Cfg) (f : Sieve.StopFn) (team : ℕ) (print : Bool) (es : Lis
     (fun _ _ => by show run1000y10.valid genConsts 1000 (1000 / max 10 1) = true; decide)
     (leafSched_isSchedule _ _ _ _)
 
+/-- `pi_lmo5(1000)` over WP close's example world (`exWorld`, `phiNeg` = the C07 function, `OK 100`) -/
+example (c : Sieve.Cfg) (f : Sieve.StopFn) :
+    piLmo5 (exWorld.lmoCtx c f Nat.primeCounting false) (1000 : ℕ) 10 run1000y10
+      (leafSched (getCI 10 + 1) (π (10 : ℤ).toNat) 10 1) = .ok (π 1000 : ℤ) :=
+  pi_lmo5_eq_pi_world1 exWorld exWorld_ok c f Nat.primeCounting (x := 1000) 1 (by norm_num) (by norm_num)
+    (by norm_num)
+    (by rw [iroot6_1000]; norm_num)
+    (by rw [iroot3_1000]; unfold TruncNear relEps; norm_num)
+    (by rw [iroot3_1000]; norm_num)
+    (by rw [iroot3_1000, iroot6_1000]; norm_num)
+    (by norm_num)
+    (fun _ _ => rfl)
+    (fun _ _ => by show run1000y10.valid genConsts 1000 (1000 / max 10 1) = true; decide)
+    (leafSched_isSchedule _ _ _ _)
+
 end Pc.C02ClosedLmo
 
 #print axioms Pc.C02ClosedLmo.lmo_ctx_world_ok
@@ -158,3 +216,6 @@ end Pc.C02ClosedLmo
 #print axioms Pc.C02ClosedLmo.pi_lmo_parallel_world_total
 #print axioms Pc.C02ClosedLmo.pi_lmo5_eq_pi_world_hpi
 #print axioms Pc.C02ClosedLmo.pi_lmo_parallel_eq_pi_world_hpi
+#print axioms Pc.C02ClosedLmo.piLmo5_eq_pi_at
+#print axioms Pc.C02ClosedLmo.pi_lmo5_eq_pi_world1
+#print axioms Pc.C02ClosedLmo.pi_lmo_parallel_world1_total
